@@ -25,19 +25,12 @@ def short(path):
     return path.replace('tyme::', '', 1) if path.startswith('tyme::') else path
 
 
-def run(ctx):
+def inventory(ctx):
+    """inventory of process-wide mutable state (MIR statics + thread_local + unsafe) against the frozen list"""
     p = ctx.prog
     mir = ctx.mir
-    fns = dict((f['path'], f) for f in mir['fns'])
     ctx.rule('EFFECT-INVENTORY', 'inventory of shared mutable state: every static with interior mutability / `static mut` / thread_local / unsafe is on the frozen list')
-    ctx.rule('EFFECT-WHO', 'who-may-touch: each mutable static is referenced only by its owning function; strategy boxes are never written by library code')
-    ctx.rule('EFFECT-MEMO', 'memo transparency: injective key, value = f(args), writer/reader field agreement, one critical section, never cleared, refusals store nothing')
-    ctx.rule('EFFECT-LOCK', 'lock discipline: no panic-capable call while a guard is live unless every acquisition tolerates poisoning; no re-entrancy; acyclic lock order')
-    ctx.rule('EFFECT-PURE', 'purity: no clock / env / fs / net / thread / rng callee; hash-map iteration only where order cannot matter')
-    ctx.rule('EFFECT-CELL', 'per-value memo cells: values with RefCell memo fields are only built with empty cells in their constructor; each cell written in one getter')
     ctx.floor('EFFECT-INVENTORY', 'MIR function bodies', len(mir['fns']), 1100)
-    ctx.floor('EFFECT-INVENTORY', 'MIR call sites', mir['n_calls'], 3500)
-
     # ------------------------------------------------------------------ 1. inventory
     statics = [s for s in mir['statics'] if '__stability' not in s['path']]
     lazies = dict((s['path'].split(' as ')[0].lstrip('<'), s) for s in mir['statics'] if '__stability' in s['path'])
@@ -68,6 +61,23 @@ def run(ctx):
     else:
         ctx.ok('EFFECT-INVENTORY', 3, {'unsafe_blocks': 0, 'thread_local': 0, 'unsafe_impls': 0})
     # lazily initialised immutable tables: initialiser must be pure (checked by the purity closure below)
+
+
+
+def run(ctx):
+    ctx.exhaustive = (ctx.tier == 'thorough')
+    ctx.exhaustive_note = 'MIR rules cover every function body and call site; the memo evaluation covers the quick key set (thorough: all 240,024 keys)'
+    p = ctx.prog
+    mir = ctx.mir
+    fns = dict((f['path'], f) for f in mir['fns'])
+    ctx.rule('EFFECT-WHO', 'who-may-touch: each mutable static is referenced only by its owning function; strategy boxes are never written by library code')
+    ctx.rule('EFFECT-MEMO', 'memo transparency: injective key, value = f(args), writer/reader field agreement, one critical section, never cleared, refusals store nothing')
+    ctx.rule('EFFECT-LOCK', 'lock discipline: no panic-capable call while a guard is live unless every acquisition tolerates poisoning; no re-entrancy; acyclic lock order')
+    ctx.rule('EFFECT-PURE', 'purity: no clock / env / fs / net / thread / rng callee; hash-map iteration only where order cannot matter')
+    ctx.rule('EFFECT-CELL', 'per-value memo cells: values with RefCell memo fields are only built with empty cells in their constructor; each cell written in one getter')
+    ctx.floor('EFFECT-LOCK', 'MIR call sites', mir['n_calls'], 3500)
+
+    inventory(ctx)
 
     # ------------------------------------------------------------------ call graph helpers
     def callees(path):
